@@ -268,6 +268,30 @@ theorem C16_set_waypoint_and_start (cfg : Config S) (s : State S) :
       have := pyGet_natCast m 0; simpa [List.getElem?_eq_getElem hlen] using this
     simp [start, travel, this]
 
+/-! ### missions loaded from a waypoint file -/
+
+/-- the parsing loop returns the positions written in the file, in the order of its lines - and nothing
+    else: the result depends on this file only, not on any file loaded before, by this plugin or another -/
+theorem C16_file_mission_is_the_file (lines : List (V3 S)) : readWaypoints lines = lines := by
+  have h : ∀ acc : List (V3 S), lines.foldl (fun mission p => mission ++ [p]) acc = acc ++ lines := by
+    induction lines with
+    | nil => intro acc; simp
+    | cons p ps ih => intro acc; simp [List.foldl_cons, ih]
+  simpa [readWaypoints] using h []
+
+/-- `start_mission_with_waypoint_file` is `start_mission` of the file's positions in EVERY state (first
+    load or re-planning, whatever mission was flown before): for a non-empty file the mission is the
+    file, waypoint 0 of the file is targeted, forwards, with its goto and the speed command; so every
+    clause proved for `start` histories holds for histories with file-based starts. -/
+theorem C16_file_start (cfg : Config S) (s : State S) (lines : List (V3 S)) :
+    startFile cfg s lines = start cfg s lines ∧
+    (lines ≠ [] → ∃ p, lines[0]? = some p ∧
+      startFile cfg s lines =
+        (⟨some lines, some 0, false, false, .setSpeed cfg.speed :: .goto p :: s.log⟩, .ok)) := by
+  have e : startFile cfg s lines = start cfg s lines := by
+    simp [startFile, C16_file_mission_is_the_file]
+  exact ⟨e, fun hne => by rw [e]; exact (C16_set_waypoint_and_start cfg s).2 lines hne⟩
+
 section
 variable [Scalar S]
 
@@ -429,6 +453,13 @@ example : (apply rev3 (run rev3 init [.start [A, B, C]]) (.setWaypoint 3)).2 = .
 
 /-- the command log after a bounce: newest first -/
 example : lastGoto (run rev3 init [.start [A, B, C], .telemetry A, .telemetry B, .telemetry C]).log = some B := by
+  decide
+
+/-- re-planning from a second file: the mission is the second file alone (2 positions), its waypoint 0 is
+    targeted, and index 2 - valid in the 3-line file loaded before - is refused -/
+example :
+    let s := (startFile rev3 (startFile rev3 init [A, B, C]).1 [C, B]).1
+    s.mission = some [C, B] ∧ s.wp = some 0 ∧ lastGoto s.log = some C ∧ (setWaypoint s 2).2 = .refused := by
   decide
 
 /-- two plugins at once, RESTART and REVERSE on different missions, calls interleaved: each follows its own
